@@ -250,6 +250,25 @@ Theorem C02_walkoff_third_derivative_bound : forall no ne dx dz,
   Rabs (Coquelicot.Derive.Derive_n (C02_walkoff.n_of no ne dx dz) 3 t) <= 29500.
 Proof. exact third_derivative_bound. Qed.
 
+(* crystal angles up to 180 deg (C02_walkoff_1e6_real covers |theta| <= 90 deg for ALL index pairs in [1, 4]; the property's domain is
+   12..90 deg between optic axis and BEAM, which for a pump along z includes crystal angles 90..168 deg).  There the code's step
+   eps^(1/3)|theta| is twice as long; the 1e-6 bound is proved for index pairs with |1/no^2 - 1/ne^2| <= 0.7 (any indices >= 1.2;
+   every built-in crystal numerically) — PARTIAL for the rest of the box, where the crude third-derivative bound gives 1.8e-6 *)
+Theorem C02_walkoff_1e6_real_wide_partial : forall no ne phi d theta p,
+  1 <= no <= 4 -> 1 <= ne <= 4 -> Rabs (inv2 no - inv2 ne) <= 0.7 -> unit_vec d -> Rabs theta <= PI ->
+  (direction_dependent no ne p ->
+     Rabs (walkoff_gen (fun t => index_along_gen t phi no no ne d p) theta - walkoff_uniaxial_general no ne d theta) <= 1e-6) /\
+  (direction_independent no ne p ->
+     walkoff_gen (fun t => index_along_gen t phi no no ne d p) theta = 0).
+Proof. exact walkoff_1e6_real_wide. Qed.
+
+(* the theta-derivative used by walkoff_exact exists for the uniaxial model, any unit beam, either polarization: the conclusions
+   `walkoff_exact ... = closed form` and `= 0` of C02_walkoff_formula_partial / C02_walkoff_any_beam_partial do not rest on Coq's
+   totalised Derive *)
+Theorem C02_walkoff_derivative_exists : forall no ne phi d p th,
+  0 < no -> 0 < ne -> unit_vec d -> ex_derive (fun t => index_model t phi no no ne d p) th.
+Proof. exact index_model_derivable. Qed.
+
 Example C02_walkoff_nonvacuous : 1 <= 1.66 <= 4 /\ 1 <= 1.55 <= 4 /\ Rabs 0.5 <= PI / 2 /\ direction_dependent 1.66 1.55 Extraordinary /\
   dependent_polarization (meta_axis (get_meta BBO_1)) = Some Extraordinary.
 Proof.
@@ -299,4 +318,6 @@ Print Assumptions C02_walkoff_1e6_real.
 Print Assumptions C02_walkoff_1e6_real_pump.
 Print Assumptions C02_walkoff_1e6_real_crystal.
 Print Assumptions C02_walkoff_third_derivative_bound.
+Print Assumptions C02_walkoff_1e6_real_wide_partial.
+Print Assumptions C02_walkoff_derivative_exists.
 Print Assumptions C02_walkoff_biaxial_partial.
